@@ -6,7 +6,7 @@ clock, plus twin accounts that differ in exactly one respect (no queries and
 no rejected calls; one single accrual; no futures position).  The reference
 amount is computed in 50-digit decimal arithmetic."""
 from decimal import Decimal as D, getcontext
-from datetime import timedelta
+from datetime import timedelta, timezone
 
 from tesim import core, world
 from tesim.core import canon
@@ -43,7 +43,8 @@ COMPONENTS = {"real": ["Broker.accrued_interest", "Broker.rebalance", "Broker.tr
 PROBE_FLOORS = {"negative_cash": 200, "floor_positive_cash_negative_net_rate": 50, "sub_day_interval": 200,
                 "multi_decade_interval": 50, "five_or_more_cuts": 100, "query_between_cuts": 200,
                 "backwards_time_rejected": 200, "margined_position_alongside": 100, "empty_rebalance_accrual": 100,
-                "env_level_interest_checked": 300, "rate_book_zero_before_first_rate_event": 100}
+                "env_level_interest_checked": 300, "rate_book_zero_before_first_rate_event": 100,
+                "timezone_aware_mixed_offsets": 2000, "accrual_clock_started_by_rebalance": 200}
 getcontext().prec = 50
 
 
@@ -187,13 +188,27 @@ def generate(rng, i):
         else:
             script.append({"op": "accrue", "dt": dt})
     script.append({"op": "accrue", "dt": rng.choice(dts)})
-    return {"kind": "c06", "cash": cash, "rate": rate, "markup": markup, "setup": setup,
+    zones = None
+    if rng.random() < 0.25:
+        # the same instants written as timezone-aware timestamps, each call in a zone of its own
+        # (UTC offsets in minutes): elapsed seconds are a matter of instants, not of wall clocks
+        zones = rng.choice([[0], [0, 120], [-300, -240], [0, 60, 120, -300, 330, 765]])
+        for op in script:
+            op["z"] = rng.randrange(len(zones))
+    only_rebalances = False
+    if rng.random() < (0.4 if zones else 0.1) and cash > 0:
+        # every accrual point, including the one that starts the accrual clock, is a rebalance that trades nothing
+        only_rebalances = True
+        script = [dict(op, op="rebal_empty") if op["op"] == "accrue" else op for op in script if op["op"] in ("accrue", "rebal_empty", "rate")]
+    return {"kind": "c06", "zones": zones, "only_rebalances": only_rebalances, "cash": cash, "rate": rate, "markup": markup, "setup": setup,
             "lev": rng.choice([1.5, 2.0, 3.0]), "fut_side": rng.choice([1, -1]), "t0": "2000-01-01T00:00:00", "script": script}
 
 
 class Account(object):
     def __init__(self, sc, cash, with_position):
-        self.t = core.parse_t(sc["t0"])
+        self.t_utc = core.parse_t(sc["t0"])
+        self.zones = sc.get("zones")
+        self.z = 0
         self.ex = Exchange()
         self.ex.process_EventNBBO(EventNBBO(self.t, Cash(), 1.0, 1.0))
         self.ex.process_EventNBBO(EventNBBO(self.t, Rate(world.RATE_NAME), sc["rate"], sc["rate"]))
@@ -210,7 +225,29 @@ class Account(object):
             self.ex.process_EventNBBO(EventNBBO(self.t, c, 100.0, 100.0))
             q = sc["fut_side"] * 0.5 * cash / (100.0 * 50.0 * 0.1)
             self.b.transact(Trade(self.t, c, q, 100.0, 100.0, self.fees))
-        self.b.accrued_interest(self.t, True)   # starts the accrual clock
+        self.by_rebalance = bool(sc.get("only_rebalances"))
+        if self.by_rebalance:
+            self.empty_rebalance()              # the first rebalance starts the accrual clock
+        else:
+            self.b.accrued_interest(self.t, True)   # starts the accrual clock
+
+    def empty_rebalance(self):
+        """A rebalance that trades nothing (target == current holdings) at the current instant."""
+        held = [(c, q) for c, q in self.b.holdings_quantity.items() if not isinstance(c, Cash) and q != 0]
+        r = Rebalancing([c for c, _ in held], [q for _, q in held], measure="nr-contracts", time=self.t)
+        self.b.rebalance(r)
+        return r
+
+    def render(self, t_utc):
+        """The instant as handed to the library: naive, or timezone-aware in the current op's zone."""
+        if not self.zones:
+            return t_utc
+        off = timedelta(minutes=self.zones[self.z % len(self.zones)])
+        return (t_utc + off).replace(tzinfo=timezone(off))
+
+    @property
+    def t(self):
+        return self.render(self.t_utc)
 
     def cash(self):
         return self.b.holdings_quantity[Cash()]
@@ -253,7 +290,7 @@ def _execute(sc):
         probe("negative_cash")
     constant_rate = True
     rate_changed_since_accrual = False
-    last_accrual_t = P.t
+    last_accrual_t = P.t_utc
     cuts = 0
     positions0 = {k: v for k, v in P.b.holdings_quantity.items() if not isinstance(k, Cash)}
     margins0 = dict(P.b.holdings_margins)
@@ -272,147 +309,171 @@ def _execute(sc):
         if bal > 0 and amt < 0:
             violate(k, "positive_balance_charged", "{}: positive balance {} was charged {}".format(what, bal, amt), regime="pos")
 
-    for k, op in enumerate(sc["script"]):
-        name = op["op"]
-        if name == "rebal_empty" and P.b.net_liquidation_value(raise_if_broke=False) <= 0:
-            name = "accrue"   # a broke account cannot rebalance (C09); accrue directly
-        stats["ops"] += 1
-        rec = [k, name]
-        if name in ("accrue", "rebal_empty"):
-            dt = op["dt"]
-            for a in (P, Q, Fz):
+    cur = [0]
+    try:
+        for k, op in enumerate(sc["script"]):
+            cur[0] = k
+            name = op["op"]
+            if name == "rebal_empty" and P.b.net_liquidation_value(raise_if_broke=False) <= 0:
+                name = "accrue"   # a broke account cannot rebalance (C09); accrue directly
+            stats["ops"] += 1
+            rec = [k, name]
+            for a in (P, Q, S, Fz):
                 if a is not None:
-                    a.t = a.t + timedelta(seconds=dt)
-            S.t = S.t + timedelta(seconds=dt)
-            bal = P.cash()
-            secs = (P.t - last_accrual_t).total_seconds()
-            amts = []
-            for a in (P, Q, Fz):
-                if a is None:
-                    amts.append(None)
-                    continue
-                if name == "accrue":
-                    amts.append(a.b.accrued_interest(a.t, True))
-                else:
-                    # a rebalance that trades nothing: target == current holdings
-                    held = [(c, q) for c, q in a.b.holdings_quantity.items() if not isinstance(c, Cash) and q != 0]
-                    r = Rebalancing([c for c, _ in held], [q for _, q in held], measure="nr-contracts", time=a.t)
-                    n_rec = len(a.b.track_record)
-                    try:
-                        a.b.rebalance(r)
-                    except EndOfEpisodeError:
-                        # interest for the period is credited first; the valuation
-                        # that follows found NLV <= 0 (C09) - the accrual stands
+                    a.z = op.get("z", 0)
+            if sc.get("zones") and len(sc["zones"]) > 1:
+                probe("timezone_aware_mixed_offsets")
+            if name in ("accrue", "rebal_empty"):
+                dt = op["dt"]
+                for a in (P, Q, Fz):
+                    if a is not None:
+                        a.t_utc = a.t_utc + timedelta(seconds=dt)
+                S.t_utc = S.t_utc + timedelta(seconds=dt)
+                bal = P.cash()
+                secs = (P.t_utc - last_accrual_t).total_seconds()
+                amts = []
+                for a in (P, Q, Fz):
+                    if a is None:
+                        amts.append(None)
+                        continue
+                    if name == "accrue":
+                        amts.append(a.b.accrued_interest(a.t, True))
+                    else:
+                        # a rebalance that trades nothing: target == current holdings
+                        held = [(c, q) for c, q in a.b.holdings_quantity.items() if not isinstance(c, Cash) and q != 0]
+                        r = Rebalancing([c for c, _ in held], [q for _, q in held], measure="nr-contracts", time=a.t)
+                        n_rec = len(a.b.track_record)
+                        try:
+                            a.b.rebalance(r)
+                        except EndOfEpisodeError:
+                            # interest for the period is credited first; the valuation
+                            # that follows found NLV <= 0 (C09) - the accrual stands
+                            amts.append(r.profit_on_idle_cash)
+                            if a is P:
+                                probe("rebalance_broke_after_interest")
+                            continue
                         amts.append(r.profit_on_idle_cash)
                         if a is P:
-                            probe("rebalance_broke_after_interest")
-                        continue
-                    amts.append(r.profit_on_idle_cash)
-                    if a is P:
-                        probe("empty_rebalance_accrual")
-                        if len(r.trades) != 0 or len(a.b.track_record) != n_rec + 1:
-                            violate(k, "empty_rebalance", "empty-target rebalance traded or did not checkpoint", kind="trades")
-            amt = amts[0]
-            stats["accruals"] += 1
-            stats["sim_seconds"] += int(secs)
-            check_amount(k, bal, amt, secs, name)
-            new = P.cash()
-            if abs(new - (bal + amt)) > 1e-12 * max(1.0, abs(bal)):
-                violate(k, "not_credited", "balance {} + amount {} != new balance {}".format(bal, amt, new), kind="credit")
-            if amts[1] != amt or Q.cash() != new:
-                violate(k, "query_changed_result", "account without queries/rejected calls got {} (cash {}) but the primary {} (cash {})".format(
-                    amts[1], Q.cash(), amt, new), kind="twin_noquery")
-            if Fz is not None and (amts[2] != amt):
-                violate(k, "margin_earned_interest", "same cash with an open futures position earned {} but without it {}".format(amt, amts[2]), kind="twin_nofuture")
-            if 0 < secs < 86400:
-                probe("sub_day_interval")
-            if secs >= 10 * SEC_YEAR:
-                probe("multi_decade_interval")
-            if secs > 0:
-                cuts += 1
-            last_accrual_t = P.t
-            rate_changed_since_accrual = False
-            rec += [canon(amt), canon(new)]
-            trace.append("A" + ("0" if secs == 0 else ("s" if secs < 86400 else ("y" if secs < SEC_YEAR * 2 else "Y"))))
-        elif name == "query":
-            dt = op["dt"]
-            for a in (P, Q, S, Fz):
-                if a is not None:
-                    a.t = a.t + timedelta(seconds=dt)
-            bal = P.cash()
-            secs = (P.t - last_accrual_t).total_seconds()
-            amt = P.b.accrued_interest(P.t, False)
-            check_amount(k, bal, amt, secs, "query")
-            if P.cash() != bal:
-                violate(k, "query_changed_balance", "a query changed the balance {} -> {}".format(bal, P.cash()), kind="query")
-            probe("query_between_cuts")
-            rec += [canon(amt)]
-            trace.append("Q")
-        elif name == "again":
-            bal = P.cash()
-            amt = P.b.accrued_interest(P.t, True)
-            secs = (P.t - last_accrual_t).total_seconds()
-            if secs == 0:
-                if amt != 0 or P.cash() != bal:
-                    violate(k, "same_instant", "accruing again at the same instant added {} (balance {} -> {})".format(amt, bal, P.cash()), kind="again")
-                probe("same_instant_accrual")
-            else:
-                # a query moved the clock forward since the last accrual: a normal accrual
-                check_amount(k, bal, amt, secs, "accrue")
-                Q.b.accrued_interest(Q.t, True)
-                if Fz is not None:
-                    Fz.b.accrued_interest(Fz.t, True)
-                last_accrual_t = P.t
+                            probe("empty_rebalance_accrual")
+                            if len(r.trades) != 0 or len(a.b.track_record) != n_rec + 1:
+                                violate(k, "empty_rebalance", "empty-target rebalance traded or did not checkpoint", kind="trades")
+                amt = amts[0]
+                stats["accruals"] += 1
+                stats["sim_seconds"] += int(secs)
+                check_amount(k, bal, amt, secs, name)
+                new = P.cash()
+                if abs(new - (bal + amt)) > 1e-12 * max(1.0, abs(bal)):
+                    violate(k, "not_credited", "balance {} + amount {} != new balance {}".format(bal, amt, new), kind="credit")
+                if amts[1] != amt or Q.cash() != new:
+                    violate(k, "query_changed_result", "account without queries/rejected calls got {} (cash {}) but the primary {} (cash {})".format(
+                        amts[1], Q.cash(), amt, new), kind="twin_noquery")
+                if Fz is not None and (amts[2] != amt):
+                    violate(k, "margin_earned_interest", "same cash with an open futures position earned {} but without it {}".format(amt, amts[2]), kind="twin_nofuture")
+                if 0 < secs < 86400:
+                    probe("sub_day_interval")
+                if secs >= 10 * SEC_YEAR:
+                    probe("multi_decade_interval")
+                if secs > 0:
+                    cuts += 1
+                last_accrual_t = P.t_utc
                 rate_changed_since_accrual = False
-                cuts += 1
-            rec += [canon(amt)]
-            trace.append("G")
-        elif name == "back":
-            faults["time_before_last_accrual"] = faults.get("time_before_last_accrual", 0) + 1
-            bal = P.cash()
-            t_bad = last_accrual_t - timedelta(seconds=op["dt"])
-            for accrue_flag in (True, False):
-                try:
-                    r = P.b.accrued_interest(t_bad, accrue_flag)
-                except ValueError:
-                    probe("backwards_time_rejected")
-                except Exception as e:
-                    violate(k, "backwards_time", "time earlier than last accrual raised {!r} instead of ValueError".format(e), exc=type(e).__name__)
+                rec += [canon(amt), canon(new)]
+                trace.append("A" + ("0" if secs == 0 else ("s" if secs < 86400 else ("y" if secs < SEC_YEAR * 2 else "Y"))))
+            elif name == "query":
+                dt = op["dt"]
+                for a in (P, Q, S, Fz):
+                    if a is not None:
+                        a.t_utc = a.t_utc + timedelta(seconds=dt)
+                bal = P.cash()
+                secs = (P.t_utc - last_accrual_t).total_seconds()
+                amt = P.b.accrued_interest(P.t, False)
+                check_amount(k, bal, amt, secs, "query")
+                if P.cash() != bal:
+                    violate(k, "query_changed_balance", "a query changed the balance {} -> {}".format(bal, P.cash()), kind="query")
+                probe("query_between_cuts")
+                rec += [canon(amt)]
+                trace.append("Q")
+            elif name == "again":
+                bal = P.cash()
+                amt = P.b.accrued_interest(P.t, True)
+                secs = (P.t_utc - last_accrual_t).total_seconds()
+                if secs == 0:
+                    if amt != 0 or P.cash() != bal:
+                        violate(k, "same_instant", "accruing again at the same instant added {} (balance {} -> {})".format(amt, bal, P.cash()), kind="again")
+                    probe("same_instant_accrual")
                 else:
-                    violate(k, "backwards_time", "time {} earlier than the last accrual {} was accepted (returned {})".format(t_bad, last_accrual_t, r), exc="none")
-            if P.cash() != bal:
-                violate(k, "backwards_time", "a rejected call changed the balance", exc="changed")
-            trace.append("B")
-        elif name == "rate":
-            for a in (P, Q, S, Fz):
-                if a is not None:
-                    a.set_rate(op["r"])
-            constant_rate = False
-            rate_changed_since_accrual = True
-            trace.append("R")
-        log.append(rec)
-        if violations:
-            break
-    if not violations:
-        # posted margin / positions untouched by interest
-        pos_now = {k: v for k, v in P.b.holdings_quantity.items() if not isinstance(k, Cash)}
-        margins_now = {k: v for k, v in P.b.holdings_margins.items() if v != 0}
-        if {k: v for k, v in pos_now.items() if v != 0} != {k: v for k, v in positions0.items() if v != 0} or \
-                margins_now != {k: v for k, v in margins0.items() if v != 0}:
-            violate(len(sc["script"]), "margin_earned_interest", "positions or posted margins changed through accruals", kind="margins_changed")
-        # split invariance: S accrues once over the whole span
-        if constant_rate:
-            S.t = P.t
-            S.b.accrued_interest(S.t, True)
-            a, b = P.cash(), S.cash()
-            if cuts >= 2:
-                probe("split_compared")
-            if cuts >= 5:
-                probe("five_or_more_cuts")
-            if abs(a - b) > 1e-10 * max(1.0, abs(a)):
-                violate(len(sc["script"]), "split_invariance", "{} accruals gave {} but a single accrual over the same span gave {}".format(cuts, a, b),
-                        regime="pos" if cash0 > 0 else "neg")
-        log.append(["end", canon(P.cash()), canon(S.cash())])
+                    # a query moved the clock forward since the last accrual: a normal accrual
+                    check_amount(k, bal, amt, secs, "accrue")
+                    Q.b.accrued_interest(Q.t, True)
+                    if Fz is not None:
+                        Fz.b.accrued_interest(Fz.t, True)
+                    last_accrual_t = P.t_utc
+                    rate_changed_since_accrual = False
+                    cuts += 1
+                rec += [canon(amt)]
+                trace.append("G")
+            elif name == "back":
+                faults["time_before_last_accrual"] = faults.get("time_before_last_accrual", 0) + 1
+                bal = P.cash()
+                t_bad = P.render(last_accrual_t - timedelta(seconds=op["dt"]))
+                for accrue_flag in (True, False):
+                    try:
+                        r = P.b.accrued_interest(t_bad, accrue_flag)
+                    except ValueError:
+                        probe("backwards_time_rejected")
+                    except Exception as e:
+                        violate(k, "backwards_time", "time earlier than last accrual raised {!r} instead of ValueError".format(e), exc=type(e).__name__)
+                    else:
+                        violate(k, "backwards_time", "time {} earlier than the last accrual {} was accepted (returned {})".format(t_bad, last_accrual_t, r), exc="none")
+                if P.cash() != bal:
+                    violate(k, "backwards_time", "a rejected call changed the balance", exc="changed")
+                trace.append("B")
+            elif name == "rate":
+                for a in (P, Q, S, Fz):
+                    if a is not None:
+                        a.set_rate(op["r"])
+                constant_rate = False
+                rate_changed_since_accrual = True
+                trace.append("R")
+            log.append(rec)
+            if violations:
+                break
+        if not violations:
+            # posted margin / positions untouched by interest
+            pos_now = {k: v for k, v in P.b.holdings_quantity.items() if not isinstance(k, Cash)}
+            margins_now = {k: v for k, v in P.b.holdings_margins.items() if v != 0}
+            if {k: v for k, v in pos_now.items() if v != 0} != {k: v for k, v in positions0.items() if v != 0} or \
+                    margins_now != {k: v for k, v in margins0.items() if v != 0}:
+                violate(len(sc["script"]), "margin_earned_interest", "positions or posted margins changed through accruals", kind="margins_changed")
+            # split invariance: S accrues once over the whole span
+            if constant_rate:
+                S.t_utc = P.t_utc
+                if S.by_rebalance and S.b.net_liquidation_value(raise_if_broke=False) > 0:
+                    try:
+                        S.empty_rebalance()
+                    except EndOfEpisodeError:
+                        pass        # credited first, then found broke (C09): the accrual stands
+                    probe("accrual_clock_started_by_rebalance")
+                else:
+                    S.b.accrued_interest(S.t, True)
+                a, b = P.cash(), S.cash()
+                if cuts >= 2:
+                    probe("split_compared")
+                if cuts >= 5:
+                    probe("five_or_more_cuts")
+                if abs(a - b) > 1e-10 * max(1.0, abs(a)):
+                    violate(len(sc["script"]), "split_invariance", "{} accruals gave {} but a single accrual over the same span gave {}".format(cuts, a, b),
+                            regime="pos" if cash0 > 0 else "neg")
+            log.append(["end", canon(P.cash()), canon(S.cash())])
+    except core.HarnessError:
+        raise
+    except Exception as e:
+        # the library failed on a valid call (not the harness): that is a finding, not a harness error
+        site = core.library_site(e)
+        if site is None:
+            raise
+        violate(cur[0], "unexpected_exception", "op {} ({}) raised {!r} in {}".format(cur[0], sc["script"][cur[0]]["op"] if cur[0] < len(sc["script"]) else "end", e, site),
+                exc=type(e).__name__, site=site)
     regime = ("neg" if cash0 < 0 else ("zero" if cash0 == 0 else "pos")) + ("floor" if sc["rate"] - sc["markup"] < 0 else "") + sc["setup"][0]
     return {"violations": violations, "digest": core.digest(log), "probes": probes, "faults": faults, "stats": stats,
             "trace": regime + ":" + "".join(trace), "nontrivial": stats["accruals"] >= 2 and len(probes) >= 1}
